@@ -5,6 +5,14 @@ value and the expression builder."""
 import numpy as np
 
 
+ARR = [None]      # optional callback turning a matrix into a guarded user array
+
+
+def _q(pr):
+    a = np.array(pr['Q'], float)
+    return ARR[0](a) if ARR[0] is not None else a
+
+
 def _p(params):
     p = params['p']
     return p[0] / p[1] if isinstance(p, (list, tuple)) else float(p)
@@ -32,10 +40,10 @@ ATOMS = {
                    val=lambda u, pr: (u ** 2).sum(), build=lambda rso, e, pr: rso.sumsqr(e)),
     'quad': dict(curv=1, kind='scalar', cone='Q',
                  val=lambda u, pr: float(u @ np.array(pr['Q']) @ u),
-                 build=lambda rso, e, pr: rso.quad(e, np.array(pr['Q'], float))),
+                 build=lambda rso, e, pr: rso.quad(e, _q(pr))),
     'nquad': dict(curv=-1, kind='scalar', cone='Q',
                   val=lambda u, pr: float(u @ np.array(pr['Q']) @ u),
-                  build=lambda rso, e, pr: rso.quad(e, np.array(pr['Q'], float))),
+                  build=lambda rso, e, pr: rso.quad(e, _q(pr))),
     'pnorm': dict(curv=1, kind='scalar', cone='Q',
                   val=lambda u, pr: float(np.sum(np.abs(u) ** _p(pr)) ** (1 / _p(pr))),
                   build=lambda rso, e, pr: rso.pnorm(e, tuple(pr['p']) if isinstance(pr['p'], list)
